@@ -13,7 +13,7 @@ Local Open Scope N_scope.
 Theorem C01_agreement : forall powers lru (correct : list (N * N)) acts,
   NoDup (map fst correct) ->
   Forall (fun e => fst e < N.of_nat (length powers)) correct ->
-  2 * total powers < two64 ->
+  total powers < two64 ->
   3 * byz_power powers (map fst correct) < total powers ->
   run_ok powers lru (init_net correct) acts ->
   forall i j v1 v2, In (i, v1) (commits (run powers lru (init_net correct) acts)) ->
